@@ -110,7 +110,7 @@ def evalRaw (st : DState) (name : String) (t : List String) : Eval :=
       | ["clear"] => mk ⟨o.m.clear, []⟩
       | ["reserve", _] => mk o
       | ["state"] => mk o
-      | ["ser"] => same (rWords (rawVecC.ser o.m)) (some (rNats ([o.s.length, (o.s.length + 63) / 64] ++ packBits o.s))) "raw.ser"
+      | ["doc"] | ["ser"] => same (rWords (rawVecC.ser o.m)) (some (rNats ([o.s.length, (o.s.length + 63) / 64] ++ packBits o.s))) "raw.ser"
       | _ => same "driver:unknown-raw-op" none
 
 /-- reference semantics of the iterator call alphabet on a list: n b N<k> B<k> l -/
@@ -162,7 +162,7 @@ def evalIv (st : DState) (name : String) (t : List String) : Eval :=
   match t with
   | ["new", w] => let w := num w; ctor (IntVec.new w) w []
   | ["with_len", n, w, v] => let n := num n; let w := num w; let v := num v
-    ctor (IntVec.withLen n w (BitVec.ofNat 64 v)) w (List.replicate n (v % 2 ^ w))
+    ctor (IntVec.withLen n w (BitVec.ofNat 64 v)) w (if w ≤ 64 then List.replicate n (v % 2 ^ w) else [])
   | ["with_capacity", c, w] => let w := num w; ctor (IntVec.withCapacity (num c) w) w []
   | "from_vec" :: ty :: vals =>
     let w := itemWidth ty
@@ -206,7 +206,7 @@ def evalIv (st : DState) (name : String) (t : List String) : Eval :=
       | ["state"] => mk o
       | ["items"] => same (rNats o.m.items) (some (rNats o.s))
       | ["into_iter"] => same (rNats o.m.items) (some (rNats o.s))
-      | ["ser"] => same (rWords (intVecC.ser o.m))
+      | ["doc"] | ["ser"] => same (rWords (intVecC.ser o.m))
           (some (rNats ([o.s.length, o.w, o.s.length * o.w, (o.s.length * o.w + 63) / 64] ++ packBits (o.s.flatMap fun x => bitsOfNat x o.w)))) "iv.ser"
       | "it" :: calls => same (accessIterRun o.m calls) (some (dequeRun (fun x => s!"s{x}") o.s calls)) "iv.iter"
       | _ => same "driver:unknown-iv-op" none
